@@ -89,13 +89,33 @@ def unique_defs(fn: FuncInfo) -> Dict[str, ast.AST]:
     for name, vals in all_defs(fn).items():
         if name in params:
             continue
-        if len(vals) == 1 and vals[0] is not None and not isinstance(vals[0], _MUTABLE_LITERALS):
+        if len(vals) == 1 and vals[0] is not None and not isinstance(vals[0], _MUTABLE_LITERALS) \
+                and not _impure(vals[0]):
             res[name] = vals[0]
     return res
 
 
 # containers built empty/literal and mutated afterwards are not values to substitute
 _MUTABLE_LITERALS = (ast.Dict, ast.List, ast.Set, ast.ListComp, ast.DictComp, ast.SetComp)
+
+# A local defined by one of these calls names "the value obtained at that
+# point" (the call is not a function of its arguments): never substituted.
+IMPURE_TAILS = {"pop", "popleft", "popitem", "next", "read", "readline", "recv", "time", "seconds", "now",
+                "urandom", "random", "randrange", "choice", "shuffle", "Deferred", "get_nowait", "__next__",
+                "mkdtemp", "mkstemp", "getpid", "monotonic"}
+
+
+def _impure(v: ast.AST) -> bool:
+    for x in own_nodes(v, into_lambda=True):
+        if isinstance(x, ast.Call):
+            f = x.func
+            t = f.id if isinstance(f, ast.Name) else (f.attr if isinstance(f, ast.Attribute) else "")
+            if t in IMPURE_TAILS:
+                return True
+        if isinstance(x, (ast.Yield, ast.YieldFrom, ast.Await)):
+            return True
+    return False
+
 
 # ------------------------------------------------------------------- helpers
 _CMP_FLIP = {ast.Gt: ast.Lt, ast.GtE: ast.LtE}
@@ -457,7 +477,7 @@ class FlowNorm:
                 continue
             dn = self.cfg.nodes[d]
             v = self._def_value(dn, name)
-            if v is None or isinstance(v, _MUTABLE_LITERALS):
+            if v is None or isinstance(v, _MUTABLE_LITERALS) or _impure(v):
                 continue
             there = self.rd.get(d, {})
             stable = True
